@@ -1,6 +1,6 @@
 (** C14 — Crossing and reversal detectors are definitional. *)
 From Yata Require Import Base.Prelude Base.Num Base.NumR Core.Window Core.Candle Core.Action
-  Spec.Hist Methods.Basic Methods.Select Proofs.MethodsCommon Proofs.Detectors.
+  Spec.Hist Spec.IndicatorDefs Methods.Basic Methods.Select Proofs.MethodsCommon Proofs.Detectors Proofs.Selection2.
 From Coq Require Import Reals.
 Open Scope Z_scope.
 
@@ -20,3 +20,33 @@ Theorem C14_cross_swap_negates (h : nat -> R * R) :
   cross_def (fun i => (snd (h i), fst (h i))) = a_neg (cross_def h).
 Proof. exact (cross_def_swap h). Qed.
 End C14.
+
+(** Reversal detectors, for streams of every length (nothing in the statements depends on the position): under the
+    API's convention that the first input is the construction value, the detector fires at a step exactly when the
+    NEWEST extreme element of the last left+right+1 inputs is [right] steps old, i.e. (C04_index_is_newest_extreme)
+    the element [right] steps back is >= (<=) every element of the window and > (<) every newer one. *)
+Section C14r.
+Context {pw : PW}.
+Local Notation R := (@F NumR).
+Theorem C14_upper_reversal lft right (v : R) xs x : 1 <= lft -> 1 <= right -> lft + right <= pmax - 2 ->
+  exists s0, rev_new lft right v = Ok s0 /\
+    snd (upper_rev_next (steps upper_rev_next s0 (v :: xs)) x) =
+    if Nat.eqb (argbest fgt (hget v (rev ((v :: xs) ++ [x]))) (Z.to_nat (lft + right + 1))) (Z.to_nat right)
+    then a_buy_all else ANone.
+Proof. exact (upper_reversal_correct lft right v xs x). Qed.
+Theorem C14_lower_reversal lft right (v : R) xs x : 1 <= lft -> 1 <= right -> lft + right <= pmax - 2 ->
+  exists s0, rev_new lft right v = Ok s0 /\
+    snd (lower_rev_next (steps lower_rev_next s0 (v :: xs)) x) =
+    if Nat.eqb (argbest flt (hget v (rev ((v :: xs) ++ [x]))) (Z.to_nat (lft + right + 1))) (Z.to_nat right)
+    then a_buy_all else ANone.
+Proof. exact (lower_reversal_correct lft right v xs x). Qed.
+Theorem C14_reversal_signal lft right (v : R) xs x : 1 <= lft -> 1 <= right -> lft + right <= pmax - 2 ->
+  exists s0, reversal_new lft right v = Ok s0 /\
+    snd (reversal_next (steps reversal_next s0 (v :: xs)) x) =
+    let h := hget v (rev ((v :: xs) ++ [x])) in let L := Z.to_nat (lft + right + 1) in let r := Z.to_nat right in
+    a_sub (if Nat.eqb (argbest flt h L) r then a_buy_all else ANone) (if Nat.eqb (argbest fgt h L) r then a_buy_all else ANone).
+Proof. exact (reversal_signal_correct lft right v xs x). Qed.
+Theorem C14_pivot_meaning (h : nat -> R) n j : (1 <= n)%nat ->
+  (argbest fgt h n = j <-> (j < n)%nat /\ (forall i, (i < j)%nat -> (h i < h j)%R) /\ (forall i, (i < n)%nat -> (h i <= h j)%R)).
+Proof. exact (upper_pivot_meaning h n j). Qed.
+End C14r.
